@@ -97,8 +97,8 @@ class Impl:
 
         self.d, self.u, self.mutant = diagnostics, utils, mutant
 
-    O_REPR = ("c", "grain-transposed-view", "fortran", "c", "strided", "readonly")
-    F_REPR = ("c", "fortran", "strided", "c", "readonly")
+    O_REPR = ("c", "grain-transposed-view", "fortran", "buffer", "strided", "readonly", "buffer")
+    F_REPR = ("c", "fortran", "strided", "buffer", "readonly", "buffer")
 
     def _o(self, o):
         # mutant "columns": an implementation that builds the scatter matrix from columns
